@@ -253,3 +253,64 @@ Definition mismatches2 (cases : list ecase) : list nat :=
   false_indices 0 (map (fun k => ecase_ok k && ref_case_ok k) cases).
 Definition ref_mismatches (cases : list ecase) : list nat :=
   false_indices 0 (map ref_case_ok cases).
+
+(* ---------------------------------------------------------------------------------------------
+   Rank-ordered (acyclic) tables and an explicit fuel bound.
+
+   rank (IPy i) = rank (IObj i) = i.  [ranked n c root]: every item that the unwrap hook of an object
+   o < n returns, and every item that the elaborate hook of a frame f < n returns, has a rank
+   strictly between the hook owner's rank and n; next_inner occurs in a hook result only as the
+   LAST element of a sequence (or as the bare result); the root has rank < n.
+   This is what harness/frames_gen.py guarantees for its generated tables (gen_case without the
+   self-loop and without a non-final next_inner, gen_dense always). *)
+Definition rank (i : item) : nat := match i with IPy f => f | IObj o => o end.
+Definition uitems (u : ures) : list item :=
+  match u with UOne i => [i] | USeq l => somes l | UIter l _ => l | _ => [] end.
+Definition eitems (e : eres) : list ritem :=
+  match e with ESeq l => l | EOne r => [r] | _ => [] end.
+
+Definition item_between (lo n : nat) (i : item) : bool := (lo <? rank i) && (rank i <? n).
+Definition ritem_between (lo n : nat) (r : ritem) : bool :=
+  match r with RItem i => item_between lo n i | RNone => true | RNext => false end.
+(* all elements ranked; the last one may also be next_inner *)
+Definition elab_ranked (lo n : nat) (l : list ritem) : bool :=
+  forallb (ritem_between lo n) (removelast l) &&
+  match last_opt l with Some RNext | None => true | Some r => ritem_between lo n r end.
+
+Definition ranked (n : nat) (c : cfg) (root : item) : bool :=
+  (rank root <? n)
+  && forallb (fun o => forallb (item_between o n) (uitems (unwrap c o))) (seq 0 n)
+  && forallb (fun f => elab_ranked f n (eitems (elab c f))) (seq 0 n).
+
+(* weight of an item = an upper bound on the number of loop iterations it can cause, read off
+   the tables (n = number of ranks still below) *)
+Fixpoint sumn (l : list nat) : nat := match l with [] => 0 | x :: r => x + sumn r end.
+Definition rweight (w : item -> nat) (r : ritem) : nat :=
+  match r with RItem j => w j | RNone => 1 | RNext => 0 end.
+Fixpoint wt (n : nat) (c : cfg) (i : item) : nat :=
+  match n with
+  | 0 => 1
+  | S n' =>
+      S match i with
+        | IObj o => sumn (map (wt n' c) (uitems (unwrap c o)))
+        | IPy f => sumn (map (rweight (wt n' c)) (eitems (elab c f)))
+        end
+  end.
+(* fuel that suffices for extract(root) on tables ranked below n *)
+Definition fuel_bound (n : nat) (c : cfg) (root : item) : nat := S (wt n c root).
+
+(* ---- third oracle for the generated cases: the generator's claim "this table is rank-ordered
+   below n" (n = 0: no claim) is checked, together with the fuel bound being within the model's
+   default fuel, so that C10_model_eq_ref_total applies to the case ---- *)
+Definition rcase := (nat * ecase)%type.
+Definition rank_claim_ok (k : rcase) : bool :=
+  let '(n, (c, r, _)) := k in
+  match n with
+  | 0 => true
+  | _ => ranked n c r && (fuel_bound n c r <=? default_fuel)
+  end.
+Definition mismatches3 (cases : list rcase) : list nat :=
+  false_indices 0 (map (fun k : rcase => ecase_ok (snd k) && ref_case_ok (snd k) && rank_claim_ok k) cases).
+Definition count_nontrivial3 (cases : list rcase) : nat := count_nontrivial (map snd cases).
+Definition count_ranked (cases : list rcase) : nat :=
+  count_true (map (fun k : rcase => negb (fst k =? 0)) cases).
